@@ -424,21 +424,6 @@ inductive AErr where
   | typeError | valueError | attributeError | keyError
 deriving DecidableEq, Repr
 
-/-- `dict.update(iterable)` element by element: a 2-character string is a key/value pair (!), any
-    other string is a ValueError, a number a TypeError; pairs before the failing one stay inserted -/
-def updateSeq : Dict → List Scalar → Dict × Option AErr
-  | d, [] => (d, none)
-  | d, .str [a, b] :: rest => updateSeq (dset d [a] (.sc (.str [b]))) rest
-  | d, .str _ :: _ => (d, some .valueError)
-  | d, .num _ _ :: _ => (d, some .typeError)
-
-/-- `var.attributes.update(value)` -/
-def pyUpdate (d : Dict) : AVal → Dict × Option AErr
-  | .dict e => (dupdate d e, none)
-  | .sc (.str s) => updateSeq d (s.map fun c => .str [c])
-  | .sc (.num _ _) => (d, some .typeError)
-  | .list xs => updateSeq d xs
-
 /-- `operator.getitem` on a parsed value with a string key -/
 def getItem (v : AVal) (k : Text) : Except AErr AVal :=
   match v with
@@ -467,35 +452,32 @@ def dotted : List Text → Text
   | [n] => n
   | n :: rest => n ++ '.' :: dotted rest
 
-/-- second half of the loop body: the nested-id lookup `reduce(getitem, [attributes] + id.split(".")[:-1])`,
-    `nested.pop(k)`, `var.attributes.update(value)` with the keep-around rule.  `va` = the variable's
-    attributes so far. -/
+/-- second half of the loop body (repaired code): the nested-id lookup
+    `nested = reduce(getitem, [attributes] + id.split(".")[:-1]); value = nested[k]` — a `KeyError` (no such entry)
+    or a `TypeError` (the path runs through a plain attribute: `7["t"]`, `"abc"["t"]`, `[1, 2]["t"]`) means there is
+    no container for this variable: `pass`.  Only a container (`isinstance(value, dict)`) is popped and becomes the
+    variable's attributes; a plain attribute named like the variable belongs to the parent and stays where it is.
+    `va` = the variable's attributes so far.  The step cannot raise any more; `Except` is kept for the line protocol
+    (`addAttributes_total` in Proofs/DasTotal.lean: the result is always `.ok`). -/
 def nestedStep (attrs1 : Dict) (p : List Text) (va : Dict) : Except AErr (Dict × Dict) :=
   match p.getLast? with
   | none => .ok (attrs1, va)
   | some k =>
     match reduceGet (.dict attrs1) p.dropLast with
-    | .error .keyError => .ok (attrs1, va)
-    | .error e => .error e
+    | .error _ => .ok (attrs1, va)                                -- KeyError / TypeError: pass
     | .ok (.dict nested) =>
       match dget nested k with
-      | none => .ok (attrs1, va)                                  -- KeyError from `pop`
-      | some value =>
-        match pyUpdate va value with
-        | (d, none) => .ok (setNested attrs1 p.dropLast (derase nested k), d)
-        | (d, some _) => .ok (setNested attrs1 p.dropLast (derase nested k ++ [(k, value)]), d)
-    | .ok (.list _) => .error .typeError                          -- `list.pop("k")`
-    | .ok (.sc _) => .error .attributeError                       -- no `.pop`
+      | some (.dict e) => .ok (setNested attrs1 p.dropLast (derase nested k), dupdate va e)
+      | _ => .ok (attrs1, va)                                     -- KeyError, or a plain attribute: stays
+    | .ok _ => .ok (attrs1, va)                                   -- `nested[k]` on a str / list / number: TypeError
 
 /-- the body of the `for var in list(walk(dataset))[::-1]` loop for the variable with id path `p`
     and current attributes `init`; returns the remaining parsed attributes and the variable's attributes -/
 def attachStep (attrs : Dict) (p : List Text) (init : Dict) : Except AErr (Dict × Dict) :=
-  -- flat: `if var.id in attributes: var.attributes.update(attributes.pop(var.id))`
+  -- flat: `if isinstance(attributes.get(var.id), dict): var.attributes.update(attributes.pop(var.id))`
   match dget attrs (dotted p) with
-  | none => nestedStep attrs p init
-  | some v => match pyUpdate init v with
-    | (d, none) => nestedStep (derase attrs (dotted p)) p d
-    | (_, some e) => .error e
+  | some (.dict e) => nestedStep (derase attrs (dotted p)) p (dupdate init e)
+  | _ => nestedStep attrs p init
 
 /-- fold of the loop over an explicit list of id paths (already in visiting order) -/
 def attachAll : Dict → List (List Text) → Except AErr (Dict × List (List Text × Dict))
@@ -549,6 +531,42 @@ def addAttributes (name : Text) (children : List Var) (attrs : Dict) : Except AE
     match attachStep attrs1 [name] g with
     | .error e => .error e
     | .ok (attrs2, g1) => .ok ⟨dupdate g1 attrs2, vars⟩
+
+/-- `add_attributes` together with what it leaves in the CALLER's dict: the function pops the NC_GLOBAL/DODS_EXTRA
+    containers and every container it attaches out of its argument (`attributes.pop`, `nested.pop`) — it consumes
+    the parsed DAS.  Second component = the argument object after the call. -/
+def addAttributesRem (name : Text) (children : List Var) (attrs : Dict) : Except AErr (Attached × Dict) :=
+  let g := mergeGlobals attrs []
+  let attrs0 := attrs.filter (fun kv => !isGlobalDict kv)
+  match attachAll attrs0 (walkVars [] children).reverse with
+  | .error e => .error e
+  | .ok (attrs1, vars) =>
+    match attachStep attrs1 [name] g with
+    | .error e => .error e
+    | .ok (attrs2, g1) => .ok (⟨dupdate g1 attrs2, vars⟩, attrs2)
+
+/-- `DAPHandler.attach_das` (handlers/dap.py): `add_attributes(self.dataset, parse_das(das))` — the DAS text of THIS
+    opening is parsed anew, the fresh dict is handed to `add_attributes` and dropped.  What a client holds is a
+    function of (dataset tree from the DDS, DAS text) alone. -/
+def clientAttach (name : Text) (children : List Var) (das : Text) : Option (Except AErr Attached) :=
+  match dasParse das with
+  | .error _ => none
+  | .ok d => some (addAttributes name children d)
+
+/-- a history of openings (any datasets, any order, texts shared or not): each opening is `clientAttach` of its own
+    text; nothing is carried from one opening to the next (there is no parsed-DAS state in the client). -/
+def clientHistory (h : List (Text × List Var × Text)) : List (Option (Except AErr Attached)) :=
+  h.map fun o => clientAttach o.1 o.2.1 o.2.2
+
+/-- the counterfactual client that keeps ONE parsed dict per DAS text and hands the same object to every
+    `add_attributes` (a memoised `parse_das`): the second opening receives what the first one left over -/
+def memoSecondOpening (name : Text) (children : List Var) (das : Text) : Option (Except AErr Attached) :=
+  match dasParse das with
+  | .error _ => none
+  | .ok d =>
+    match addAttributesRem name children d with
+    | .error e => some (.error e)
+    | .ok (_, left) => some (addAttributes name children left)
 
 /-- serve, parse, attach -/
 def roundTrip (ds : Dataset) : Option (Except AErr Attached) :=
